@@ -321,8 +321,13 @@ pub fn rand_raw_lib(rng: &mut Rng, cfg: &RawCfg) -> GenRaw {
     let mut cells: Vec<Ptr<Cell>> = Vec::new();
     let mut deps = Vec::new();
     let mut names = Vec::new();
+    // one library in six names its cells from a family of equally long names that differ in one character only
+    let family = if rng.chance(1, 6) { Some(crate::rt::prng::NameFamily::random(rng)) } else { None };
     for i in 0..ncells {
-        let name = format!("{}{}", rng.pick(&["cell", "Inv", "nand_", "TOP", "x"]), i);
+        let name = match &family {
+            Some(f) => f.name(i),
+            None => format!("{}{}", rng.pick(&["cell", "Inv", "nand_", "TOP", "x"]), i),
+        };
         names.push(name.clone());
         let mut cell = Cell::new(name.clone());
         let want_layout = !cfg.abstracts || rng.chance(4, 5);
